@@ -198,6 +198,7 @@ static void applyVar(State& s, const string& x, int v) {
         else if (b == "zero") y.grav.setZeroHeight(s, 0.4 * v);
         else if (b == "excl") { y.grav.setBodyIsExcluded(s, y.b2.getMobilizedBodyIndex(), v == 1);
                                 y.grav.setBodyIsExcluded(s, y.b3.getMobilizedBodyIndex(), v == 2); }
+        else if (b == "vecdir") y.grav.setGravityVector(s, v == 0 ? Vec3(0, -9.8, 0) : v == 1 ? Vec3(9.8, 0, 0) : Vec3(0, 9.8, 0));
         else if (b == "vec") y.grav.setGravityVector(s, v == 0 ? Vec3(0, -9.8, 0) : Vec3(1.0 * v, -9.8, 0.5));
         else if (b == "off") y.grav.setMagnitude(s, v == 0 ? 9.8 : v == 1 ? 0. : 4.9);
         else y.grav.setMagnitude(s, 9.8 + 2.0 * v);
